@@ -74,6 +74,9 @@ CLAIMED = {
     "C14": ("other", "DESIGN.md#c14", "symbolic execution of path.traversal.closed_paths / discretize_path / Line entities / Path.paths / Path.discrete on curves with symbolic coordinates; cut positions, entity directions and list order are solver variables (forked); z3 decides shoelace area / perimeter / vertex-set identities; shapely-backed values compared per configuration on catalogue coordinates",
             "Every cut pattern (up to 4 + 2 entities), every direction assignment and every rotation / reversal of the entity list of a rectangle with symbolic size and offset, a nested triangle and a disjoint quadrilateral is run through the real traversal: three closed paths must come back, each entity chain a rotation / reversal of its input loop, and z3 proves for all coordinates that each recovered loop is closed and has exactly the input polygon's shoelace area, perimeter and vertex set. polygons_closed / polygons_full / root / area / length (shapely) are compared with the exact values for every configuration on catalogue coordinates, under 9 similarity transforms with derived values read before or after.",
             TRUSTED + "line entities only (arc_center: nested square roots, z3 unknown); list orders: rotations and reversal, not all permutations; shapely values on catalogue coordinates only; DXF / SVG / dict round trips not claimed (text codecs, cf. C08)."),
+    "C20": ("other", "DESIGN.md#c20", "symbolic execution of exchange.stl.load_stl_binary and the header / chunk loop of exchange.gltf.load_glb against a stub environment: stream of symbolic length, np.frombuffer returning symbolic 32-bit words (z3 Ints with modulo-2^32 uint32 arithmetic), allocation requests recorded as terms; z3 decides the allocation bound, loop progress and exit kinds",
+            "The real loader code runs on a stream stub whose read/tell/seek work on a symbolic length L, with every header word an arbitrary 32-bit value: for every path z3 decides that each allocation the code requests (np.arange, frombuffer, read) is at most 64*L + 4096 bytes, that the GLB chunk loop consumes a chunk header per iteration (iterations <= L/8 + 1, unwinding bound checked) and that each exit is a return or an Exception. A counterexample is packed into real bytes and replayed on the unmodified loader with real numpy.",
+            TRUSTED + "L <= 234 (STL) / 36 (GLB quick; 52 thorough) bytes, payload content irrelevant to the skeleton; stubs: stream semantics, numpy's frombuffer size contract, json.loads of the GLB JSON chunk; text parsers, zip/json/xml payloads, handle closing in load.load, interpreter crashes, wall-clock and RSS not claimed."),
 }
 
 NOT_APPLICABLE = {
